@@ -209,7 +209,10 @@ pub fn tree_walker(
                 target_base.clone()
             };
 
-            if config.no_clobber && target.exists() {
+            // A dangling symlink is an existing entry too (creating the
+            // file would write through it), and a failed probe must not
+            // be read as "absent".
+            if config.no_clobber && (target.is_symlink() || target.try_exists()?) {
                 let msg = "Destination file exists and --no-clobber is set.";
                 stats.send(StatusUpdate::Error(
                     XcpError::DestinationExists(msg, target)))?;
